@@ -49,9 +49,17 @@ package clickhouse_transpiler
 //@   modifies nothing
 //@ iface (ISelect).Select(cols)
 //@   modifies nothing
-//@ func (*AttrConditionPlanner).aggregator [C14]
+// The rows of the aggregated attribute have to survive the pre-filter: the key it lets
+// through is the very key the agg_val column reads (the index stores keys without the
+// span. / resource. / . prefix).
+//@ spec fn aggKey1(s string) string = hasPrefix(s, "span.") ? s[5:len(s)] : s
+//@ spec fn aggKey2(s string) string = hasPrefix(s, "resource.") ? s[9:len(s)] : s
+//@ spec fn aggKey3(s string) string = hasPrefix(s, ".") ? s[1:len(s)] : s
+//@ func (*AttrConditionPlanner).aggregator [C11,C14]
 //@   flag checks=-index,-assert
 //@   modifies a.where, elems(a.where)
+//@   at sql_select.NewCol$ aggregate-reads-the-stored-key: unbox(arg0, "*sqlAttrValue").attr == aggKey3(aggKey2(aggKey1(a.AggregatedAttr)))
+//@   at sql_select.NewStringVal$ pre-filter-keeps-the-key-the-aggregate-reads: arg0 == aggKey3(aggKey2(aggKey1(a.AggregatedAttr)))
 // A disjunction without operands renders as "()", which is not SQL: the pre-filter
 // on attribute rows is only added when some term asks for an attribute (a selector
 // such as {duration > 1s} has none).
